@@ -27,7 +27,7 @@
      defined, it is (e v <> None). *)
 From PV Require Import Lib.Bytes Gen.CondSimpSets Spec.BmakeCond Model.CondSimp
   Proofs.CondSimpA Proofs.CondSimpB Proofs.CondSimpNum Proofs.CondSimpC Proofs.CondSimpWords Proofs.CondSimpD
-  Proofs.CondSimpE Proofs.CondSimpF.
+  Proofs.CondSimpE Proofs.CondSimpF Spec.PrefsFile Model.CondFile Proofs.CondFileA Proofs.CondFileB Proofs.CondSimpG.
 Open Scope N_scope.
 
 (* ---- the regenerated literals are the ones the model was written against ---- *)
@@ -297,3 +297,169 @@ Theorem C14_tables_fit_the_reader :
   in_set lit_pattern_set 36 = false /\ in_set simple_mod_set 36 = false.
 Proof. exact tables_fit_the_reader. Qed.
 Print Assumptions C14_tables_fit_the_reader.
+
+(* ---- the ':U' decision inside the model: what feeds isDefined while the file is read ---- *)
+(* Model/CondFile.v: loads_prefs (util.go LoadsPrefs with the REGENERATED name table), scan
+   (Tools.ParseToolLine: SeenPrefs; checkLine: vars.Define outside conditional blocks;
+   Indentation), file_ctx (the context MkCondChecker sees after the lines read so far).
+   Spec/PrefsFile.v: prefs_reference (the files that load the user preferences, a committed
+   list) + "below a directory mk"; sure_after (what bmake guarantees after some lines: an
+   include or assignment counts only outside of conditional blocks); possible_env (the
+   environments that can occur at that point: always-defined variables, variables assigned for
+   sure, and -- only if a prefs file has been included for sure -- the variables bsd.prefs.mk
+   defines; none of this for a variable that an .undef has touched since; everything else may be
+   undefined). *)
+
+(* every basename in LoadsPrefs' table (regenerated from util.go) is a reference file, and the
+   directory it trusts is the reference directory: a widened table breaks this *)
+Theorem C14_loads_prefs_table_within_reference :
+  forallb (fun n => in_strs n prefs_reference) loads_prefs_names = true /\ loads_prefs_dir = infrastructure_dir.
+Proof. exact loads_prefs_table_sound. Qed.
+Print Assumptions C14_loads_prefs_table_within_reference.
+
+(* for ALL paths: LoadsPrefs (path.Base + the table, Path.ContainsPath "mk") says "loads the
+   preferences" only for files that do, by the spec's own reading of the path *)
+Theorem C14_loads_prefs_within_reference : forall p,
+  loads_prefs p = true -> really_loads_prefs p = true.
+Proof. exact loads_prefs_sound. Qed.
+Print Assumptions C14_loads_prefs_within_reference.
+
+(* isDefined is right in the file: for ALL fragments other than hacks.mk (any lines before the condition) without
+   a prefs include inside a conditional block and without an .undef of the variable, ALL declarations that are right about bmake,
+   and ALL environments possible after those lines *)
+Theorem C14_is_defined_sound_in_file : forall decl mmn always by_prefs pre e v,
+  decl_right decl always by_prefs ->
+  conditional_prefs_include sure0 pre = false ->
+  possible_env always by_prefs pre e ->
+  in_strs v (su_undef (sure_after pre)) = false ->
+  let cx := file_ctx decl mmn (scan (init_state false) pre) in
+  is_defined (cx_seen_prefs cx) (cx_var cx v) = true -> e v <> None.
+Proof. exact is_defined_sound_in_file. Qed.
+Print Assumptions C14_is_defined_sound_in_file.
+
+(* hence: a rewrite offered at the line after [pre] keeps the value (and does not become
+   malformed) under every environment possible there -- "isDefined is right" is no longer a
+   hypothesis.  simplifyWord (:M form), simplifyYesNo, simplifyMatch: *)
+Theorem C14_rewrite_sound_in_file : forall decl mmn always by_prefs pre,
+  decl_right decl always by_prefs ->
+  conditional_prefs_include sure0 pre = false ->
+  let cx := file_ctx decl mmn (scan (init_state false) pre) in
+  (forall v mods fe neg rw e,
+    In rw (simplify_word cx v mods fe neg) ->
+    (exists pat, last mods [] = 77 :: pat) ->
+    possible_env always by_prefs pre e ->
+    in_strs v (su_undef (sure_after pre)) = false ->
+    exists f t, rw_from_c rw = Some f /\ rw_to_c rw = Some t /\
+      ((forall d s, eval_expr e v (map classify_mod (removelast mods)) = Some (d, s) -> wordlike s) ->
+       preserves e f t)) /\
+  (forall v mods fe neg rw e,
+    In rw (fst (simplify_yesno cx v mods fe neg)) ->
+    possible_env always by_prefs pre e ->
+    in_strs v (su_undef (sure_after pre)) = false ->
+    exists f t, rw_from_c rw = Some f /\ rw_to_c rw = Some t /\
+      ((vi_nonempty_if_defined (decl v) = true -> e v <> Some []) ->
+       (forall d s, eval_expr e v (map classify_mod (removelast mods)) = Some (d, s) -> wordlike s) ->
+       preserves e f t)) /\
+  (forall v mods fe neg rw e,
+    In rw (simplify_match cx v mods fe neg) ->
+    possible_env always by_prefs pre e ->
+    in_strs v (su_undef (sure_after pre)) = false ->
+    exists f t pat, rw_from_c rw = Some f /\ rw_to_c rw = Some t /\ last mods [] = 77 :: pat /\
+      (forall d s, eval_expr e v (map classify_mod (removelast mods)) = Some (d, s) ->
+         clean s ->
+         (mmn pat <> MmnYes ->
+          forall w, w <> [] -> wordlike w -> str_match w pat = true -> try_parse_number w = None) ->
+         equivalent e f t)).
+Proof.
+  exact (fun decl mmn always by_prefs pre Hd Hc =>
+    conj (word_M_sound_in_file decl mmn always by_prefs pre Hd Hc)
+      (conj (yesno_sound_in_file decl mmn always by_prefs pre Hd Hc)
+            (match_sound_in_file decl mmn always by_prefs pre Hd Hc))).
+Qed.
+Print Assumptions C14_rewrite_sound_in_file.
+
+(* without the guard "no prefs include inside a conditional block" the statement is false of
+   the faithful model (a genuine defect, known finding C14/*/undefined/conditional-include):
+   .if defined(OTHER) / .include "bsd.prefs.mk" / .endif / .if !empty(V:Malpha)  ->  ${V} == alpha,
+   V undefined: false -> malformed *)
+Theorem C14_rewrite_sound_in_file_refuted : ~ word_in_file_full.
+Proof. exact word_in_file_full_refuted. Qed.
+Print Assumptions C14_rewrite_sound_in_file_refuted.
+
+(* ... and without the guard "no .undef of the variable since" (a second genuine defect, known
+   finding C14/*/undefined/undef-after-assignment): V= x / .undef V / .if !empty(V:Malpha) ->
+   ${V} == alpha, V undefined: false -> malformed *)
+Theorem C14_rewrite_sound_in_file_refuted_undef : ~ word_in_file_undef_full.
+Proof. exact word_in_file_undef_full_refuted. Qed.
+Print Assumptions C14_rewrite_sound_in_file_refuted_undef.
+
+(* all hypotheses of the file-level theorems hold together, with isDefined = true *)
+Example C14_in_file_hypotheses_satisfiable :
+  decl_right ex_decl_one (fun _ => false) (fun n => str_eqb n ex_var) /\
+  conditional_prefs_include sure0 ex_sure_pre = false /\
+  possible_env (fun _ => false) (fun n => str_eqb n ex_var) ex_sure_pre (env1 ex_var (Some ex_alpha)) /\
+  in_strs ex_var (su_undef (sure_after ex_sure_pre)) = false /\
+  is_defined (cx_seen_prefs (file_ctx ex_decl_one ex_mmn (scan (init_state false) ex_sure_pre)))
+             (cx_var (file_ctx ex_decl_one ex_mmn (scan (init_state false) ex_sure_pre)) ex_var) = true.
+Proof. exact in_file_hypotheses_satisfiable. Qed.
+
+(* the hypotheses are satisfiable, the theorem is not vacuous: after an unconditional include of
+   bsd.prefs.mk SeenPrefs is set, the spec agrees, ':U' is dropped and the value is kept *)
+Example C14_in_file_example :
+  conditional_prefs_include sure0 ex_sure_pre = false /\
+  su_prefs (sure_after ex_sure_pre) = true /\
+  fs_seen_prefs (scan (init_state false) ex_sure_pre) = true /\
+  (exists rw f t,
+    simplify_word (file_ctx ex_decl_P ex_mmn (scan (init_state false) ex_sure_pre)) ex_var ex_Malpha_mods true true = [rw] /\
+    rw_from_c rw = Some f /\ rw_to_c rw = Some t /\
+    eval (env1 ex_var (Some ex_alpha)) f = Some TTrue /\ eval (env1 ex_var (Some ex_alpha)) t = Some TTrue).
+Proof. exact in_file_example. Qed.
+
+Example C14_near_misses_do_not_load :
+  forallb (fun p => negb (loads_prefs p))
+    [[46; 46; 47; 46; 46; 47; 100; 47; 108; 47; 98; 117; 105; 108; 100; 108; 105; 110; 107; 51; 46; 109; 107];
+     [46; 46; 47; 46; 46; 47; 100; 47; 108; 47; 98; 117; 105; 108; 116; 105; 110; 46; 109; 107];
+     [77; 97; 107; 101; 102; 105; 108; 101; 46; 99; 111; 109; 109; 111; 110]] = true.
+Proof. exact near_misses_do_not_load. Qed.
+
+(* ---- text <-> tree: the spec's own reader maps the texts pkglint writes to the trees the
+   theorems above are about (until round 4 this was only checked per generated case) ---- *)
+(* name_ok v: v is non-empty and consists of the reader's name bytes (letters, digits, _ .);
+   mods_ok ms: every prefix modifier is read by the reader as ONE modifier (scan_seg consumes it
+   to its end and seg_ok holds: plain bytes -- none of : $ \ ( ) { } and the double quote -- and nested ${NAME} only
+   after M or N); sufficient: only plain bytes (C14_plain_modifier_readable).
+   No hypothesis on the pattern: simplifyWord's and simplifyYesNo's own gates (the regenerated
+   byte sets, toLower's shape) already confine it. *)
+Theorem C14_word_text_is_tree : forall cx v mods fe neg rw,
+  In rw (simplify_word cx v mods fe neg) ->
+  name_ok v = true -> mods_ok (removelast mods) = true ->
+  parse_cond (rw_from rw) = rw_from_c rw /\ parse_cond (rw_to rw) = rw_to_c rw.
+Proof. exact word_text_is_tree. Qed.
+Print Assumptions C14_word_text_is_tree.
+
+Theorem C14_yesno_text_is_tree : forall cx v mods fe neg rw,
+  In rw (fst (simplify_yesno cx v mods fe neg)) ->
+  name_ok v = true -> mods_ok (removelast mods) = true ->
+  parse_cond (rw_from rw) = rw_from_c rw /\ parse_cond (rw_to rw) = rw_to_c rw.
+Proof. exact yesno_text_is_tree. Qed.
+Print Assumptions C14_yesno_text_is_tree.
+
+(* simplifyMatch: its regex gate confines every byte of the modifiers; what is needed (and
+   necessary: ':Ma:b' is read back as two modifiers) is that no modifier contains a ':' *)
+Theorem C14_match_text_is_tree : forall cx v mods fe neg rw,
+  In rw (simplify_match cx v mods fe neg) ->
+  name_ok v = true -> forallb no_colon mods = true ->
+  parse_cond (rw_from rw) = rw_from_c rw /\ parse_cond (rw_to rw) = rw_to_c rw.
+Proof. exact match_text_is_tree. Qed.
+Print Assumptions C14_match_text_is_tree.
+
+Theorem C14_plain_modifier_readable : forall m, mod_ok m = true -> mod_readable m = true.
+Proof. exact mod_ok_readable. Qed.
+Print Assumptions C14_plain_modifier_readable.
+
+(* the hypotheses hold for the names and prefix modifiers the harness generates *)
+Example C14_text_tree_hypotheses_satisfiable :
+  name_ok [67; 49; 52; 69; 65; 95; 85; 46; 102; 111; 111] = true /\        (* C14EA_U.foo *)
+  mods_ok [[116; 108]; [85]; [85; 97; 108; 112; 104; 97]] = true /\         (* tl, U, Ualpha *)
+  forallb no_colon [[116; 108]; [77; 97; 108; 42]] = true.                   (* tl, Mal*  *)
+Proof. vm_compute. repeat split; reflexivity. Qed.
